@@ -58,6 +58,7 @@ func recvName(fd *ast.FuncDecl) string {
 // Inventory lists the function declarations of every non-test Go file below repo (all build tags).
 func Inventory(repo string) (map[string]bool, error) {
 	inv := map[string]bool{}
+	lastSigs = map[string]string{}
 	fset := token.NewFileSet()
 	err := filepath.Walk(repo, func(path string, info os.FileInfo, err error) error {
 		if err != nil {
@@ -79,12 +80,39 @@ func Inventory(repo string) (map[string]bool, error) {
 		rel, _ := filepath.Rel(repo, filepath.Dir(path))
 		for _, d := range f.Decls {
 			if fd, ok := d.(*ast.FuncDecl); ok {
-				inv[Key(filepath.ToSlash(rel), recvName(fd), fd.Name.Name)] = true
+				k := Key(filepath.ToSlash(rel), recvName(fd), fd.Name.Name)
+				inv[k] = true
+				lastSigs[k] = sigOf(fd)
 			}
 		}
 		return nil
 	})
 	return inv, err
+}
+
+// lastSigs holds the signatures (parameter and result types, names dropped) found by the latest Inventory call,
+// refSigs those of the committed reference inventory.
+var lastSigs = map[string]string{}
+var refSigs = map[string]string{}
+
+func sigOf(fd *ast.FuncDecl) string {
+	part := func(fl *ast.FieldList) string {
+		if fl == nil {
+			return ""
+		}
+		var ts []string
+		for _, f := range fl.List {
+			n := len(f.Names)
+			if n == 0 {
+				n = 1
+			}
+			for i := 0; i < n; i++ {
+				ts = append(ts, types.ExprString(f.Type))
+			}
+		}
+		return strings.Join(ts, ",")
+	}
+	return "(" + part(fd.Type.Params) + ")(" + part(fd.Type.Results) + ")"
 }
 
 // ReadInventory reads the committed inventory (a JSON list of keys). A missing file means: no folding.
@@ -93,29 +121,39 @@ func ReadInventory(path string) map[string]bool {
 	if err != nil {
 		return nil
 	}
-	var keys []string
-	if json.Unmarshal(data, &keys) != nil {
+	var entries []string
+	if json.Unmarshal(data, &entries) != nil {
 		return nil
 	}
 	inv := map[string]bool{}
-	for _, k := range keys {
+	sigs := map[string]string{}
+	for _, e := range entries {
+		k, sig := e, ""
+		if i := strings.Index(e, " :: "); i >= 0 {
+			k, sig = e[:i], e[i+4:]
+		}
 		inv[k] = true
+		sigs[k] = sig
 	}
+	// the targets of one run read the same file concurrently
+	foldMu.Lock()
+	refSigs = sigs
+	foldMu.Unlock()
 	return inv
 }
 
-// WriteInventory writes the inventory of repo to path.
+// WriteInventory writes the inventory of repo to path (one "dir|receiver|name :: signature" string per function).
 func WriteInventory(repo, path string) error {
 	inv, err := Inventory(repo)
 	if err != nil {
 		return err
 	}
-	var keys []string
+	var entries []string
 	for k := range inv {
-		keys = append(keys, k)
+		entries = append(entries, k+" :: "+lastSigs[k])
 	}
-	sort.Strings(keys)
-	data, _ := json.MarshalIndent(keys, "", " ")
+	sort.Strings(entries)
+	data, _ := json.MarshalIndent(entries, "", " ")
 	return os.WriteFile(path, append(data, '\n'), 0o644)
 }
 
@@ -139,6 +177,7 @@ func NewFunctions(repo string, inv map[string]bool) []string {
 // Result of Overlay.
 type Result struct {
 	Overlay map[string][]byte
+	Renamed []string // "new key -> old name" for functions recognised as renamed and given their reference name back
 	Folded  []string // "key into N call site(s)"
 	Kept    []string // "key: reason" for new functions that were left alone
 }
@@ -154,6 +193,33 @@ func Overlay(repo, modPath string, env []string, inv map[string]bool) (*Result, 
 	}
 	keptWhy := map[string]string{}
 	currentOverlay = res.Overlay
+	// (0) a new unexported function with the signature of exactly one function that has disappeared from the same
+	// package (same receiver) is that function renamed: it gets its reference name back, so that rules, floors and
+	// known-finding keys that name it keep applying
+	if renames := detectRenames(repo, inv); len(renames) > 0 {
+		cfg := &packages.Config{
+			Mode: packages.NeedName | packages.NeedFiles | packages.NeedCompiledGoFiles | packages.NeedImports | packages.NeedDeps | packages.NeedTypes | packages.NeedSyntax | packages.NeedTypesInfo,
+			Dir:  repo,
+			Env:  env,
+		}
+		if pkgs, err := packages.Load(cfg, "./..."); err == nil {
+			for _, pk := range pkgs {
+				if (pk.PkgPath == modPath || strings.HasPrefix(pk.PkgPath, modPath+"/")) && len(pk.Errors) == 0 && pk.TypesInfo != nil {
+					if err := unrename(repo, pk, renames, res); err != nil {
+						return res, err
+					}
+				}
+			}
+		}
+		// the inventory of the overlaid tree: renamed-back functions are no longer new
+		for nk, old := range renames {
+			parts := strings.Split(nk, "|")
+			if len(parts) == 3 {
+				inv = cloneWith(inv, Key(parts[0], parts[1], parts[2]))
+				_ = old
+			}
+		}
+	}
 	for round := 0; round < 4; round++ {
 		cfg := &packages.Config{
 			Mode:    packages.NeedName | packages.NeedFiles | packages.NeedCompiledGoFiles | packages.NeedImports | packages.NeedDeps | packages.NeedTypes | packages.NeedSyntax | packages.NeedTypesInfo,
@@ -1549,4 +1615,132 @@ func wrapsNonNil(pk *packages.Package, wd *ast.FuncDecl, param string) bool {
 		return true
 	})
 	return ok && n > 0
+}
+
+func cloneWith(inv map[string]bool, extra string) map[string]bool {
+	out := make(map[string]bool, len(inv)+1)
+	for k, v := range inv {
+		out[k] = v
+	}
+	out[extra] = true
+	return out
+}
+
+// detectRenames: new key -> reference name, for new unexported functions whose signature equals that of exactly one
+// function of the same directory and receiver that is in the reference inventory and no longer in the tree.
+func detectRenames(repo string, inv map[string]bool) map[string]string {
+	cur, err := Inventory(repo)
+	if err != nil {
+		return nil
+	}
+	curSigs := lastSigs
+	out := map[string]string{}
+	taken := map[string]bool{}
+	var added []string
+	for k := range cur {
+		if !inv[k] {
+			added = append(added, k)
+		}
+	}
+	sort.Strings(added)
+	for _, nk := range added {
+		np := strings.Split(nk, "|")
+		if len(np) != 3 || ast.IsExported(np[2]) {
+			continue
+		}
+		var match []string
+		for ok := range inv {
+			if cur[ok] || taken[ok] {
+				continue
+			}
+			op := strings.Split(ok, "|")
+			if len(op) == 3 && op[0] == np[0] && op[1] == np[1] && !ast.IsExported(op[2]) && refSigs[ok] != "" && refSigs[ok] == curSigs[nk] {
+				match = append(match, ok)
+			}
+		}
+		if len(match) == 1 {
+			out[nk] = strings.Split(match[0], "|")[2]
+			taken[match[0]] = true
+		}
+	}
+	return out
+}
+
+// unrename rewrites every identifier that denotes a renamed function of pk back to its reference name.
+func unrename(repo string, pk *packages.Package, renames map[string]string, res *Result) error {
+	fset := pk.Fset
+	info := pk.TypesInfo
+	objs := map[types.Object]string{}
+	for _, f := range pk.Syntax {
+		fname := fset.PositionFor(f.Pos(), false).Filename
+		if strings.HasSuffix(fname, "_test.go") {
+			continue
+		}
+		rel, _ := filepath.Rel(repo, filepath.Dir(fname))
+		for _, d := range f.Decls {
+			fd, ok := d.(*ast.FuncDecl)
+			if !ok {
+				continue
+			}
+			nk := Key(filepath.ToSlash(rel), recvName(fd), fd.Name.Name)
+			old, ok := renames[nk]
+			if !ok {
+				continue
+			}
+			obj := info.Defs[fd.Name]
+			if obj == nil {
+				continue
+			}
+			// the reference name must be free
+			if fd.Recv == nil {
+				if pk.Types.Scope().Lookup(old) != nil {
+					continue
+				}
+			} else if fo, isF := obj.(*types.Func); isF {
+				if sig, isSig := fo.Type().(*types.Signature); isSig && sig.Recv() != nil {
+					if o, _, _ := types.LookupFieldOrMethod(sig.Recv().Type(), true, pk.Types, old); o != nil {
+						continue
+					}
+				}
+			}
+			objs[obj] = old
+			res.Renamed = append(res.Renamed, nk+" -> "+old)
+		}
+	}
+	if len(objs) == 0 {
+		return nil
+	}
+	edits := map[string][]edit{}
+	for _, f := range pk.Syntax {
+		ast.Inspect(f, func(n ast.Node) bool {
+			id, ok := n.(*ast.Ident)
+			if !ok {
+				return true
+			}
+			obj := info.Defs[id]
+			if obj == nil {
+				obj = info.Uses[id]
+			}
+			if old, ok := objs[obj]; ok {
+				file := fset.PositionFor(id.Pos(), false).Filename
+				edits[file] = append(edits[file], edit{fset.PositionFor(id.Pos(), false).Offset, fset.PositionFor(id.End(), false).Offset, old})
+			}
+			return true
+		})
+	}
+	for file, el := range edits {
+		src := res.Overlay[file]
+		if src == nil {
+			var err error
+			if src, err = os.ReadFile(file); err != nil {
+				return err
+			}
+		}
+		sort.Slice(el, func(i, j int) bool { return el[i].start > el[j].start })
+		for _, e := range el {
+			src = append(append(append([]byte{}, src[:e.start]...), e.text...), src[e.end:]...)
+		}
+		res.Overlay[file] = src
+	}
+	return nil
 }
